@@ -264,8 +264,11 @@ Definition wit_basket : basket :=
 Definition wit_state : state :=
   init_state wit_basket
     (fun a d => if (a =? 0) && (d =? 1) then 2000 else if ((a =? 1) || (a =? 2)) && (d =? 0) then 1000 else 0) 2000.
-Definition current : variant := mkV false false.
-Definition repaired : variant := mkV true true.
+(* the tree as it is (68b9c08 keeps the amount in EditBasket), the tree before that commit, and
+   the tree with every proposed repair *)
+Definition current : variant := mkV false true false.
+Definition before_68b9c08 : variant := mkV false false false.
+Definition repaired : variant := mkV true true true.
 
 Lemma wit_burn_current_b :
   match burn current wit_state 0 1 0 1000 with
@@ -486,7 +489,7 @@ Proof.
     injection H as <-. split; [|exact F]. destruct B as [B1 B2]. split; [exact B1|].
     intros d'. cbn [with_bk s_bk s_bal set_tokens b_tokens b_surplus]. rewrite (slash_token_rsum _ _ _ _ E d'). apply B2.
   - injection H as <-. split; assumption.
-  - subst stake_enabled. injection H as <-. split; assumption.
+  - subst stake_enabled. cbn [andb] in H. injection H as <-. split; assumption.
 Qed.
 
 Theorem books_match_bank : forall v ops s, Forall op_ok ops -> Inv s -> Inv (run v s ops).
@@ -521,12 +524,12 @@ Proof.
   change ((0 =? 0) && (d =? 1)) with (d =? 1).
   change (((0 =? 1) || (0 =? 2)) && (d =? 0)) with false. destruct (1 =? d) eqn:Q, (d =? 1) eqn:Q2; lia.
 Qed.
-Lemma edit_wit_b : match edit current wit_state edit_wit with Ok s' => (s_supply s' =? 2000) && (b_amount (s_bk s') =? 0) | _ => false end = true.
+Lemma edit_wit_b : match edit before_68b9c08 wit_state edit_wit with Ok s' => (s_supply s' =? 2000) && (b_amount (s_bk s') =? 0) | _ => false end = true.
 Proof. vm_compute. reflexivity. Qed.
-Theorem books_edit_refuted : exists s new s', Books s /\ edit current s new = Ok s' /\ s_supply s' <> b_amount (s_bk s').
+Theorem books_edit_refuted : exists s new s', Books s /\ edit before_68b9c08 s new = Ok s' /\ s_supply s' <> b_amount (s_bk s').
 Proof.
   exists wit_state, edit_wit. pose proof edit_wit_b as H.
-  destruct (edit current wit_state edit_wit) as [s'| |]; try discriminate.
+  destruct (edit before_68b9c08 wit_state edit_wit) as [s'| |]; try discriminate.
   exists s'. split; [exact wit_books|]. split; [reflexivity|]. lia.
 Qed.
 (* the pool-upsert hook replaces the record: supply in circulation, recorded amount zero *)
